@@ -37,6 +37,15 @@ func genC20Long(o *hx.Out, r *rand.Rand, tier string) {
 			if len(raw.Payload) > 30 {
 				raw.Payload = raw.Payload[:r.Intn(30)]
 			}
+			if j%40 == 7 {
+				// the largest entry: signed v2 frame with a 255-byte payload (8 + 280 bytes)
+				p := make([]byte, 255)
+				r.Read(p)
+				p[254] |= 1
+				fr = &frame.V2Frame{IncompatibilityFlag: 1, SequenceNumber: byte(j), SystemID: 1, ComponentID: 1,
+					Message: &message.MessageRaw{ID: raw.ID, Payload: p}, Checksum: uint16(r.Intn(65536)),
+					SignatureLinkID: 2, SignatureTimestamp: uint64(j), Signature: &frame.V2Signature{1, 2, 3, 4, 5, 6}}
+			}
 			t := time.UnixMicro(1700000000000000 + int64(j)*1000 + int64(r.Intn(1000)))
 			w.Write(&tlog.Entry{Time: t, Frame: fr}) //nolint:errcheck
 		}
@@ -112,6 +121,13 @@ func genC20(o *hx.Out, tier string) {
 			t := time.UnixMicro(us).Add(time.Duration(r.Intn(1000)) * time.Nanosecond) // sub-microsecond offset: floors
 			var fr frame.Frame
 			switch {
+			case (i%8 == 1 && j == 0) || r.Intn(12) == 0: // the largest frame: signed v2 with a 255-byte payload
+				p := make([]byte, 255)
+				r.Read(p)
+				p[254] |= 1
+				fr = &frame.V2Frame{IncompatibilityFlag: 1, SequenceNumber: byte(j), SystemID: 1, ComponentID: 1,
+					Message: &message.MessageRaw{ID: uint32(r.Intn(1 << 24)), Payload: p}, Checksum: uint16(r.Intn(65536)),
+					SignatureLinkID: 2, SignatureTimestamp: uint64(j), Signature: &frame.V2Signature{1, 2, 3, 4, 5, 6}}
 			case withD && r.Intn(2) == 0:
 				v2 := r.Intn(2) == 0
 				fr = validFrame(r, drw, hx.RandMessage(r, d.Messages[r.Intn(len(d.Messages))], 2), v2, nil)
